@@ -185,11 +185,14 @@ def bite(c, a, b):
 
 
 _FRESH_MEMO = {}
+DETERMINISTIC_FRESH = False   # opt-in (C12's trace-identity obligations): unknown Booleans become functions of their operands
 
 
 def fresh_for(tag, *terms):
     """an unconstrained Bool that is a FUNCTION of the given terms: the same (tag, terms) always yields the same constant, so two
     interpretations of the same computation produce identical terms"""
+    if not DETERMINISTIC_FRESH:
+        return z3.FreshConst(z3.BoolSort(), tag.split("_")[0])
     key = (tag,) + tuple(t.get_id() if is_z(t) else repr(t) for t in terms)
     hit = _FRESH_MEMO.get(key)
     if hit is None:
@@ -216,6 +219,7 @@ class Ctx:
         self.hooks = {}
         self.keep = []         # keep z3 refs alive (ids are reused otherwise)
         self.side = []         # undecided definedness side conditions of every executed operation (witness-search heuristic)
+        self.ite_cap = 6       # If-nodes lifted out of one exponent at most (2^n cases); the bijection harnesses raise it
 
     def fresh(self, name, sort=None):
         self.n += 1
@@ -810,8 +814,10 @@ def _sexp_plain(ctx, t):
         if t == 0:
             return Fraction(1)
     t = toreal(t)
+    if find_ite(t) is not None:
+        t = z3.simplify(t)     # nested Ifs on the same condition collapse before they are counted
     it = find_ite(t)
-    if it is not None and _count_ites(t, 7) <= 6:
+    if it is not None and _count_ites(t, getattr(ctx, 'ite_cap', 6) + 1) <= getattr(ctx, 'ite_cap', 6):
         c, a, b = it.children()
         ea = _sexp_plain(ctx, z3.substitute(t, (it, a)))
         eb = _sexp_plain(ctx, z3.substitute(t, (it, b)))
@@ -827,7 +833,14 @@ def _sexp_plain(ctx, t):
         ctx.facts += [e > lo, e < hi]
         res = m(res, e)
     for i, (a, k) in atoms.items():
-        if _is_log(a) and k.denominator == 1:
+        if z3.is_app(a) and a.decl().kind() == z3.Z3_OP_ITE and _count_ites(a, 5) <= 4:
+            # a summand that is itself an If: exp(k*If(c,A,B)) = If(c, exp(kA), exp(kB)) - linear in the number of summands
+            c_, A_, B_ = a.children()
+            kk = z3.RealVal(str(k))
+            ea = _sexp_plain(ctx, z3.simplify(kk * A_))
+            eb = _sexp_plain(ctx, z3.simplify(kk * B_))
+            res = m(res, z3.If(c_, toreal(ea), toreal(eb)))
+        elif _is_log(a) and k.denominator == 1:
             res = m(res, powq(a.arg(0), k))
         elif k.denominator == 1 and abs(k.numerator) <= 8:
             e = _exp_atom(ctx, a)
@@ -2126,12 +2139,22 @@ def check(ctx, assumptions, goal, rlimit=20_000_000, timeout=60_000, name="", wa
         variants.append(allc)
         strategies.append(["default"] if any(_has_uf(c) for c in allc) else ["purify-nlsat", "default"])
     trust = [True] * len(variants)
+    nbase = len(variants)
     if abstract_ite:
         av = abstract_ites(variants[0])
         if av is not None:
             variants.append(av)
             strategies.append(["default"] if any(_has_uf(c) for c in av) else ["purify-nlsat", "default"])
             trust.append(False)
+    # generalisation: every uninterpreted application (EXP/LOG/random draws ...) becomes a fresh variable (congruence dropped), which
+    # makes the query UF-free so that nlsat applies; only `unsat` of this variant is meaningful
+    for vi in range(nbase):
+        if any(_has_uf(c) for c in variants[vi]):
+            uv = abstract_ufs(variants[vi])
+            if uv is not None:
+                variants.append(uv)
+                strategies.append(["purify-nlsat"])
+                trust.append(False)
     t = time.time()
     from . import ext
     rr, model, info = ext.run_portfolio(variants, strategies, timeout_s=timeout / 1000.0, want_model=want_model, trust_sat=trust)
@@ -2157,6 +2180,29 @@ def check(ctx, assumptions, goal, rlimit=20_000_000, timeout=60_000, name="", wa
     if r == z3.sat:
         return "sat", s.model()
     return "unknown", None
+
+
+def abstract_ufs(cons):
+    """every maximal uninterpreted application with arguments is replaced by a fresh constant of its sort (consistently per term)"""
+    found = {}
+
+    def walk(e, seen):
+        i = e.get_id()
+        if i in seen:
+            return
+        seen.add(i)
+        if z3.is_app(e) and e.num_args() > 0 and e.decl().kind() == z3.Z3_OP_UNINTERPRETED:
+            found.setdefault(i, e)
+            return
+        for c in e.children():
+            walk(c, seen)
+    seen = set()
+    for c in cons:
+        walk(c, seen)
+    if not found or len(found) > 60:
+        return None
+    sb = [(e, z3.FreshConst(e.sort(), "uf")) for e in found.values()]
+    return [z3.substitute(c, *sb) for c in cons]
 
 
 def abstract_ites(cons):
